@@ -630,7 +630,9 @@ SnapViol(s, R) ==
     \cup (IF Established(s) /\ s.cwnd < mtu THEN {V("C10_CwndFloor", <<e, s.cwnd>>)} ELSE {})
     \cup (IF loss /\ Established(s) /\ (s.cwnd # floorC \/ s.ssthresh # half(prev.cwnd))
           THEN {V("C10_T3Cut", <<e, prev.cwnd, s.cwnd, s.ssthresh>>)} ELSE {})
-    \cup (IF enterFR /\ ~loss /\ (s.ssthresh # half(prev.cwnd) \/ s.cwnd # s.ssthresh)
+    \* the SACK that triggers fast recovery may first have advanced the cumulative ack point, which grows cwnd
+    \* by at most one MTU (slow start: min(acked, MTU); congestion avoidance: one MTU) before the cut is taken
+    \cup (IF enterFR /\ ~loss /\ (s.ssthresh < half(prev.cwnd) \/ s.ssthresh > half(prev.cwnd + mtu) \/ s.cwnd # s.ssthresh)
           THEN {V("C10_FastRecoveryCut", <<e, prev.cwnd, s.cwnd, s.ssthresh>>)} ELSE {})
     \cup (IF onlyData /\ sk # <<>> /\ (sk.cum # s.rcum \/ GapTSNs(sk) # SeqSet(s.held))
           THEN {V("C05_CompleteNow", <<e, sk.cum, s.rcum>>)} ELSE {})
